@@ -19,7 +19,9 @@ ROOT = os.path.dirname(os.path.dirname(os.path.abspath(__file__)))
 REPO = os.environ.get("VERIF_REPO", "/repo")
 COQ = os.path.join(ROOT, "coq")
 BUILD = os.path.join(ROOT, "build")
-HARNESS = os.path.join(ROOT, "harness")
+HARNESS = os.environ.get("VERIF_HARNESS", os.path.join(ROOT, "harness"))
+# where evidence/ and replays/ are written (mutation experiments point this elsewhere)
+OUTDIR = os.environ.get("VERIF_OUT", ROOT)
 
 GOENV = dict(os.environ, GOFLAGS="-mod=mod", GOPROXY="off", GOSUMDB="off",
              GOTOOLCHAIN="local", CGO_ENABLED="0")
@@ -435,8 +437,8 @@ def match_known(pid, fail, known):
 
 
 def write_evidence(pid, ev):
-    os.makedirs(os.path.join(ROOT, "evidence"), exist_ok=True)
-    p = os.path.join(ROOT, "evidence", pid + ".json")
+    os.makedirs(os.path.join(OUTDIR, "evidence"), exist_ok=True)
+    p = os.path.join(OUTDIR, "evidence", pid + ".json")
     tmp = p + ".tmp"
     json.dump(ev, open(tmp, "w"), indent=1)
     os.replace(tmp, p)
